@@ -628,6 +628,11 @@ def rule_schema_binary(m):
                 ts = {f.unit.decl(v)['ctype'] for v in order[:2]}
                 if ts != {'unsigned int'}:
                     why = 'source and destination are not read into 32-bit unsigned integers'
+            if not why:
+                cd = f.unit.decl(adds[0]['callee'])
+                if not (cd.get('cptypes') and cd['cptypes'][-1] == 'bool' and len(aa) == len(cd['cptypes']) and aa[-1] == ('bool', True)):
+                    why = 'the record is not inserted with force=true: a repeated record (parallel edge) of the file is dropped ' \
+                          'silently, so the loaded graph has fewer edges than the file has records'
         if why:
             res.fail(Finding('F-IO.SCHEMA.bin', disp, 'loader record', f.where(), why))
         else:
